@@ -231,6 +231,11 @@ class Resolver:
             return out
         if isinstance(e, tuple):
             if e[0] == 'elem':
+                if isinstance(e[1], (ast.Tuple, ast.List)) and not any(isinstance(x, ast.Starred) for x in e[1].elts):
+                    # an element of a display is one of the displayed values
+                    for x in e[1].elts:
+                        out |= self.expr_type(x, fi, depth + 1)
+                    return out
                 for t in self.expr_type(e[1], fi, depth + 1):
                     if isinstance(t, tuple) and t[0] == 'listof':
                         out |= set(t[1])
